@@ -121,10 +121,11 @@ CLAIMED = {
              "unchanged (every parameter, no extra ones), rename removes the old name and renames the references in the element table; "
              "the real change_std_type sets every column the type defines to the type's value, leaves the other columns and all other "
              "rows unchanged and sets std_type, whatever the row held before; the real create_line / create_transformer / "
-             "create_transformer3w and the batch functions create_lines / create_transformers3w hand every parameter the type defines "
+             "create_transformer3w and the batch functions create_lines / create_transformers (except the shift / tap columns of the C24 known "
+             "finding) / create_transformers3w hand every parameter the type defines "
              "(that is a column of the element table) to the element table with the type's value (for every row of a batch of any size).",
         note="Assumed: element tables have the documented columns; zero-sequence line parameters come together; _set_entries / "
-             "pd.DataFrame(entries) write the dict they receive. Not decided: fuse types, parameter_from_std_type, create_transformers (known finding of C24), the calculation "
+             "pd.DataFrame(entries) write the dict they receive. Not decided: fuse types, parameter_from_std_type, shift / tap data through create_transformers (known finding of C24, reported there), the calculation "
              "reading the table (C02)."),
     "C24": dict(
         text="Relational proof on the real create functions: the single call is run for the generic element of a batch of any size, the "
